@@ -58,10 +58,14 @@ type tcase struct {
 		Dsubs []string            `json:"dsubs"`
 		Flags map[string][]string `json:"flags"`
 	} `json:"live"`
-	Allowed []sState          `json:"allowed"`
-	Pre     sState            `json:"pre"`
-	Post    sState            `json:"post"`
-	Content map[string]string `json:"content"`
+	Allowed []sState `json:"allowed"` // what the property allows after the restart
+	// Yields is the state the specification's model of the code ends in; Deviation names the known way in which that
+	// state is NOT allowed ("" = it is allowed)
+	Yields    sState            `json:"yields"`
+	Deviation string            `json:"deviation"`
+	Pre       sState            `json:"pre"`
+	Post      sState            `json:"post"`
+	Content   map[string]string `json:"content"`
 }
 
 func (c *tcase) sig() string { return fmt.Sprintf("%s/%d/%s", c.Op, c.K, c.Kind) }
@@ -226,7 +230,11 @@ func (d *drv) add(k string) {
 
 func (d *drv) violate(c *tcase, class, detail string) {
 	// the key names the shape (operation, kind of fault, what is wrong); the step is in the detail and in the replay object
-	key := fmt.Sprintf("%s/%s/%s", c.Op, c.Kind, class)
+	kind := c.Kind
+	if kind == "errkill" {
+		kind = "error" // same fault; the kill afterwards only decides how the server goes down
+	}
+	key := fmt.Sprintf("%s/%s/%s", c.Op, kind, class)
 	what := "process killed"
 	switch c.Kind {
 	case "error":
@@ -236,7 +244,7 @@ func (d *drv) violate(c *tcase, class, detail string) {
 	case "none":
 		what = "no fault, clean shutdown and restart"
 	}
-	d.r.Violate(key, fmt.Sprintf("operation %s, step %d of %d (%s): %s\n%s", c.Op, c.K, c.NSteps, c.stepName(), what, detail),
+	d.r.Violate(key, fmt.Sprintf("operation %s, step %d of %d in GluonCrash.tla (%s): %s\n%s", c.Op, c.K, c.NSteps, c.stepName(), what, detail),
 		map[string]interface{}{"op": c.Op, "k": c.K, "kind": c.Kind})
 }
 
@@ -463,6 +471,13 @@ func (d *drv) judge(c *tcase, o *obsState, have canon, modelOK, ackOK bool) {
 	if ok {
 		return
 	}
+	if modelOK && c.Deviation != "" && c.canonState(&c.Yields).String() == have.String() {
+		// the specification's model of the code predicts exactly this state and says the property does not allow it
+		pre, post := c.canonState(&c.Pre), c.canonState(&c.Post)
+		d.violate(c, c.Deviation, fmt.Sprintf("answered %s; a fresh session after restart sees\n   %s\nbefore the operation: %s\nafter the operation:  %s\n%s",
+			c.Ack, fullView(have), fullView(pre), fullView(post), deviationText[c.Deviation]))
+		return
+	}
 	if !modelOK {
 		// the allowed states belong to a step list the code no longer follows: only the property's own predicates
 		allowed = []string{"(not applicable: step list out of date)"}
@@ -483,8 +498,8 @@ func (d *drv) judge(c *tcase, o *obsState, have canon, modelOK, ackOK bool) {
 	hu, pu, qu := fullView(have), fullView(pre), fullView(post)
 	boa := hu.String() == pu.String() || hu.String() == qu.String()
 	if !boa && c.Op == "APPEND" && (c.Kind == "error" || c.Kind == "errkill") {
-		h2, p2, q2 := userView(have), userView(pre), userView(post)
-		boa = (h2.String() == p2.String() || h2.String() == q2.String()) && recoveryKeeps(pre, have)
+		// the designed outcome of an APPEND that could not be performed: target untouched, message rescued
+		boa = userView(have).String() == userView(pre).String() && recoveryKeeps(pre, have)
 	}
 	if !boa {
 		d.violate(c, "neither-before-nor-after", fmt.Sprintf("a fresh session after restart sees\n   %s\nbefore the operation: %s\nafter the operation:  %s", hu, pu, qu))
@@ -498,6 +513,11 @@ func (d *drv) judge(c *tcase, o *obsState, have canon, modelOK, ackOK bool) {
 		return
 	}
 	d.violate(c, "state-not-allowed", fmt.Sprintf("a fresh session after restart sees\n   %s\nthe specification allows\n   %s\n(before the operation: %s)\n(after the operation:  %s)", have, strings.Join(allowed, "\n   "), pre, post))
+}
+
+var deviationText = map[string]string{
+	"appended-and-rescued": "the message is in the target mailbox AND a copy is in the recovery mailbox, and the client was told NO: " +
+		"stateDBWriteResult returns an error when only its second transaction (state updates) fails, and Mailbox.Append then rescues a message that the first transaction has already committed",
 }
 
 // fullView keeps what a client sees: all mailboxes and the subscription list.
@@ -609,6 +629,29 @@ func run(r *ev.Run, tier, replay string) {
 			r.Machinery("the plan TLC printed lacks the clean restart of %s", op)
 			return
 		}
+	}
+	// the invariants must reject broken designs (thorough): otherwise "TLC found no error" would mean nothing
+	if tier == "thorough" && replay == "" {
+		base, err := os.ReadFile(filepath.Join(ev.Root(), "spec", "cfg", "GluonCrash."+tier+".cfg"))
+		if err != nil {
+			r.Machinery("%v", err)
+			return
+		}
+		rejected := map[string]string{}
+		for design, inv := range map[string]string{"no_cleanup": "NoOrphans", "no_purge": "NoOrphans", "row_first": "EveryListedFetchable", "split_move": "BeforeOrAfter"} {
+			txt := strings.Replace(strings.Replace(string(base), `Design = "code"`, `Design = "`+design+`"`, 1), "Emit = TRUE", "Emit = FALSE", 1)
+			mres, err := tlc.Run(tlc.Options{SpecDir: filepath.Join(ev.Root(), "spec"), Module: "GluonCrash", CfgText: txt, Workers: 2, Timeout: 5 * time.Minute, KeepOutput: true})
+			if err != nil {
+				r.Machinery("tlc (design %s): %v", design, err)
+				return
+			}
+			if mres.Violated != inv {
+				r.Machinery("the broken design %q should violate %s, TLC says violated=%q error=%q\n%s", design, inv, mres.Violated, mres.Error, tail(mres.Output))
+				return
+			}
+			rejected[design] = mres.Violated
+		}
+		r.Set("broken_designs_rejected_by_tlc", rejected)
 	}
 	r.Set("triples_enumerated", int64(len(plan)))
 	r.Set("operations", int64(len(perOp)))
@@ -737,7 +780,7 @@ func run(r *ev.Run, tier, replay string) {
 	for i, c := range todo {
 		if i%(len(todo)/6+1) == 0 {
 			r.Sample(map[string]interface{}{"op": c.Op, "step": c.K, "of": c.NSteps, "step_name": c.stepName(), "fault": c.Kind,
-				"steps_reached": c.Steps, "answer": c.Ack, "allowed_after_restart": c.canonState(&c.Allowed[0])})
+				"steps_reached": c.Steps, "answer": c.Ack, "code_yields_after_restart": c.canonState(&c.Yields), "allowed_by_property": len(c.Allowed) > 0})
 		}
 	}
 	r.Set("exec_wall_s", time.Since(start).Seconds())
